@@ -41,26 +41,38 @@ KEY_ORPHAN = "C09:orphan-tree-version-rejects-sibling-block"
 def orphan_conflict(run, line):
     """Was the step rejected at trace line `line` an Add of a block at a height where the last start-up left a saved
     tree version (above the head it restarted at) with a different root - or the Add right after such a block (with
-    pruning pending, CommitTree hides the error of the conflicting commit and the NEXT block fails)?"""
+    pruning pending, CommitTree hides the error of the conflicting commit and the NEXT block fails)?  Returns the call
+    whose interruption left that version behind ("Add" for block insertion), or None."""
     rows = run["rows"]
     i = line - run["start"] - 2
     if i < 0 or i >= len(rows) or rows[i]["ev"] != "Apply" or rows[i]["what"] != "Add":
-        return False
+        return None
     j = i
     while j >= 0 and rows[j]["ev"] != "Restart":
         j -= 1
     if j < 0 or not rows[j]["ok"]:
-        return False
+        return None
     o = rows[j]["obs"]
+    hit = None
     for r in rows[j:i + 1]:
         if r["ev"] != "Apply" or r["what"] != "Add" or r["b"]["h"] < rows[i]["b"]["h"] - 1:
             continue
         b = r["b"]
-        if any(v["h"] == b["h"] and v["h"] > o["head"]["h"] and v["r"] != b["root"] for v in o["svr"]):
-            return True
-        if any(v["h"] == b["h"] and v["h"] > o["head"]["h"] and v["r"] != b["idr"] for v in o["ivr"]):
-            return True
-    return False
+        for tree, vers, want in (("svr", o["svr"], b["root"]), ("ivr", o["ivr"], b["idr"])):
+            for v in vers:
+                if v["h"] == b["h"] and v["h"] > o["head"]["h"] and v["r"] != want:
+                    hit = (tree, v["h"], v["r"])
+    if hit is None:
+        return None
+    # the first start-up that shows this version above its head: the crash in front of it left it behind
+    creator = None
+    for k, r in enumerate(rows[:j + 1]):
+        if r["ev"] == "Crash":
+            creator = r
+        if r["ev"] == "Restart" and r["ok"] and any(v["h"] == hit[1] and v["r"] == hit[2] and v["h"] > r["obs"]["head"]["h"]
+                                                     for v in r["obs"][hit[0]]):
+            return (creator or {}).get("step") or "?"
+    return "?"
 
 
 def case_class(c):
@@ -106,21 +118,27 @@ def validate_parts(ctx, parts):
 def attribute(run, clauses):
     """Map the clauses TLC found broken in one run ({clause: trace line}) to finding keys."""
     res = {}
-    reset = run["reset"]
-    crashes = [(run["start"] + 2 + i, r["ph"], r.get("lost", "")) for i, r in enumerate(run["rows"]) if r["ev"] == "Crash"]   # 1-based lines
-    lost_kinds = [k for _, _, k in crashes]
+    crashes = [(run["start"] + 2 + i, r) for i, r in enumerate(run["rows"]) if r["ev"] == "Crash"]   # 1-based lines
     left = set(clauses)
-    if "HeadIndexed" in left and "Canon" in lost_kinds:
+    # head written, canonical hash lost, while inserting a block
+    if "HeadIndexed" in left and any(r.get("lost") == "Canon" and r.get("step") == "Add" for _, r in crashes):
         hit = left & CANON_CLAUSES
         res[KEY_CANON] = hit
         left -= hit
-    if "ContinuationAccepted" in left and orphan_conflict(run, clauses["ContinuationAccepted"]):
-        hit = left & {"ContinuationAccepted", "ReachesReference"}
-        res[KEY_ORPHAN] = hit
-        left -= hit
+    if "ContinuationAccepted" in left:
+        by = orphan_conflict(run, clauses["ContinuationAccepted"])
+        if by == "Add":
+            hit = left & {"ContinuationAccepted", "ReachesReference"}
+            res[KEY_ORPHAN] = hit
+            left -= hit
+        elif by is not None:
+            hit = left & {"ContinuationAccepted", "ReachesReference"}
+            res["C09:orphan-tree-version-left-by-interrupted-%s" % by] = hit
+            left -= hit
     for c in sorted(left):
-        before = [k for line, _, k in crashes if line <= clauses[c]]
-        res["C09:%s:%s:lost-%s" % (c, reset["sc"]["op"], before[-1] if before else "none")] = {c}
+        before = [r for line, r in crashes if line <= clauses[c]]
+        last = before[-1] if before else {}
+        res["C09:%s:%s:lost-%s" % (c, last.get("step") or "none", last.get("lost") or "none")] = {c}
     return res
 
 
@@ -256,7 +274,7 @@ def main(ctx):
         for c in cases:
             f.write(json.dumps(c) + "\n")
     shards = max(1, min(ctx.cores - 2, 12))
-    n_enum, n_dbl = (8, 6) if quick else (60, 25)
+    n_enum, n_dbl = (10, 5) if quick else (60, 25)
 
     def run_shard(k):
         out = ctx.path("traces", "part%02d.ndjson" % k)
@@ -367,7 +385,7 @@ def main(ctx):
         "faults_injected": totals["runs"], "restarts": totals["restarts"], "double_crash_runs": totals["double"],
         "clean_restarts": totals["clean_restarts"], "recovery_writes_observed": totals["recovery_writes"],
         "crash_classes": {"%s/%s/%s" % k: v for k, v in sorted(lost_seen.items())},
-        "runs_from_tlc_schedules": totals["src_tlc"], "runs_from_enumeration": totals["src_enum"] + totals["src_enum2"],
+        "runs_from_tlc_schedules": totals["src_tlc"], "runs_from_enumeration": totals["src_enum"] + totals["src_enum2"], "runs_from_sweep": totals["src_sweep"],
         "unresolved_schedules": totals["unresolved"],
         "drift_steps": drift, "model_vs_real_verdict_mismatches": totals["prediction_mismatch"], "mismatch_samples": pred_mismatch,
         "runs_with_broken_clauses": len(broken_runs),
